@@ -607,6 +607,9 @@ def _isinstance(ctx, v, t):
         if isinstance(v, EnumMember):
             return py is object
         return isinstance(v, py)
+    if isinstance(t, (FuncVal, BoundMethod, SpecFn)) or t is None or isinstance(t, (int, float, str)):
+        # CPython: the second argument must be a type (or a tuple of types)
+        ctx.raise_exc("TypeError", ("isinstance() arg 2 must be a type, a tuple of types, or a union",))
     raise U()("isinstance against %r" % (t,))
 
 
